@@ -6,9 +6,11 @@ import (
 	"errors"
 	"fmt"
 	"io"
+	"io/fs"
 	"log/slog"
 	"net/http"
 	"net/http/httptest"
+	"os"
 	"regexp"
 	"runtime"
 	"sort"
@@ -67,7 +69,8 @@ func (timeoutErr) Temporary() bool { return true }
 
 func injected(err error) bool {
 	var te timeoutErr
-	return errors.Is(err, io.ErrShortWrite) || errors.Is(err, syscall.EAGAIN) || errors.Is(err, syscall.EINTR) || errors.As(err, &te)
+	return errors.Is(err, io.ErrShortWrite) || errors.Is(err, syscall.EAGAIN) || errors.Is(err, syscall.EINTR) || errors.As(err, &te) ||
+		errors.Is(err, os.ErrClosed) || errors.Is(err, io.ErrClosedPipe) || errors.Is(err, syscall.EPIPE) || strings.HasPrefix(err.Error(), "injected:")
 }
 
 func newRecWriter() *recWriter {
@@ -88,7 +91,15 @@ func (w *recWriter) Write(p []byte) (int, error) {
 	}
 	w.inside.Add(-1)
 	if n := w.nwrites.Add(1); w.failEvery > 0 && n%int64(w.failEvery) == 0 {
-		switch (n / int64(w.failEvery)) % 4 {
+		switch (n / int64(w.failEvery)) % 8 {
+		case 4:
+			return 0, errors.New("injected: disk full")
+		case 5:
+			return 0, &fs.PathError{Op: "write", Path: "injected.log", Err: os.ErrClosed}
+		case 6:
+			return 0, io.ErrClosedPipe
+		case 7:
+			return len(p) / 4, syscall.EPIPE
 		case 0:
 			return len(p) / 2, io.ErrShortWrite
 		case 1:
@@ -196,6 +207,7 @@ type rec struct {
 	park    bool // formatting parks
 	bigMsg  bool // the size goes into the message instead of the attributes
 	ctxMode int  // 0 background, 1 cancelled context, 2 context whose deadline has passed (the logger must not care)
+	tIdx    int  // which of lg.Times a hand-built record carries
 	pc      int  // which of lg.PCs a hand-built record carries (handlers with addSource)
 }
 
@@ -306,7 +318,7 @@ func (r *rec) emit(n node, g *gate) (err error) {
 	}
 	switch via {
 	case 0:
-		return h.Handle(ctx, lg.NewRecordPC(r.level, r.msg(), lg.PCs[r.pc%len(lg.PCs)], r.attrs(g)...))
+		return h.Handle(ctx, lg.NewRecordAt(lg.TimeAt(r.tIdx), r.level, r.msg(), lg.PCs[r.pc%len(lg.PCs)], r.attrs(g)...))
 	case 1:
 		l.LogAttrs(ctx, r.level, r.msg(), r.attrs(g)...)
 	case 2:
@@ -334,7 +346,10 @@ func (r *rec) emit(n node, g *gate) (err error) {
 // (only used to describe a violation).
 func (sc *scenario) solo(r *rec) []byte {
 	var c lg.Capture
-	n := sc.handlers[r.hidx].build(rootNode(lg.NewHandlerOpts(sc.kind, &c, slog.Level(-1000), sc.colorful, sc.addSource)))
+	root := lg.NewHandlerOpts(sc.kind, &c, slog.Level(-1000), sc.colorful, sc.addSource)
+	lg.Cold(root) // the reference comes from a fresh root whose caches (its own and package-level ones) are cold
+	c.Take()
+	n := sc.handlers[r.hidx].build(rootNode(root))
 	r.emit(n, nil)
 	if len(c.Chunks) != 1 {
 		return nil
@@ -393,6 +408,9 @@ func (sc *scenario) describe() string {
 		}
 		if r.ctxMode > 0 {
 			fmt.Fprintf(&sb, ":ctx%d", r.ctxMode)
+		}
+		if r.via == 0 {
+			fmt.Fprintf(&sb, ":t=%s", lg.TimeAt(r.tIdx).Format("15:04:05Z07:00"))
 		}
 		if r.park {
 			sb.WriteString(":park")
@@ -1003,7 +1021,7 @@ func run(e *hk.Env) error {
 	newRec := func(sc *scenario, t, hidx int, level slog.Level, via, size, gk int, park bool) {
 		nextID++
 		sc.recs = append(sc.recs, rec{id: nextID, thread: t, level: level, enabled: level >= sc.threshold, via: via, hidx: hidx, size: size, gateKnd: gk, park: park,
-			bigMsg: !park && r.Chance(25), pc: r.Intn(4), ctxMode: []int{0, 0, 0, 1, 2}[r.Intn(5)]})
+			bigMsg: !park && r.Chance(25), pc: r.Intn(4), tIdx: r.Intn(len(lg.Times)), ctxMode: []int{0, 0, 0, 1, 2}[r.Intn(5)]})
 	}
 	scen, bad, writes, recsTotal, disabledTotal := 0, 0, 0, 0, 0
 	hist := map[string]int{}
@@ -1017,8 +1035,8 @@ func run(e *hk.Env) error {
 			return // the build hangs: two scenarios reported, the rest would only add waiting time
 		}
 		sc.colorful, sc.addSource = r.Chance(25), r.Chance(45)
-		if (sc.name == "free" || sc.name == "stress" || sc.name == "gated-writer" || sc.name == "residue") && r.Chance(30) {
-			sc.failEvery = 2 + r.Intn(3)
+		if (sc.name == "free" || sc.name == "stress" || sc.name == "gated-writer" || sc.name == "residue" || sc.name == "parked-formatter") && r.Chance(35) {
+			sc.failEvery = 1 + r.Intn(4) // every n-th Write reports a failure: transient, generic, closed file / pipe, EPIPE
 		}
 		sc.noFmtWait = fmtUnderLock[sc.kind]
 		if sc.noFmtWait && sc.name == "parked-formatter" {
